@@ -209,3 +209,28 @@ def precision(bits):
 
 def inner(a, b):
     return np.sum(np.conj(a) * b)
+
+
+# ------------------------------------------------------------------------------------------------
+# memory layout is an input dimension too: same values, different strides
+LAYOUTS = ['C', 'C', 'F', 'T-view', 'strided']
+layouts = st.sampled_from(LAYOUTS)
+
+
+def relayout(a, how):
+    """return an array equal to `a` element for element, with another memory layout:
+       C contiguous copy | F Fortran-ordered copy | T-view transpose of a C-ordered transpose (F-contiguous view) |
+       strided every-other-element view into a larger buffer (non-contiguous on every axis)."""
+    a = np.asarray(a)
+    if how == 'C' or a.ndim == 0:
+        return np.ascontiguousarray(a)
+    if how == 'F':
+        return np.asfortranarray(a)
+    if how == 'T-view':
+        return np.ascontiguousarray(a.T).T
+    if how == 'strided':
+        big = np.zeros(tuple(2 * s for s in a.shape), dtype=a.dtype)
+        sl = tuple(slice(0, 2 * s, 2) for s in a.shape)
+        big[sl] = a
+        return big[sl]
+    raise ValueError(how)
